@@ -72,7 +72,7 @@ def emit(repo):
         seq.append(f"({s}, {int(incompat.value)}, {int(to_set.value)}, {int(to_clear.value)})")
     named = {"Transpose": Op.Transpose, "FullyConnected": Op.FullyConnected, "VarHandle": Op.VarHandle,
              "ReadVariable": Op.ReadVariable, "CallOnce": Op.CallOnce, "AvgPool": Op.AvgPool, "Const": Op.Const,
-             "Memcpy": Op.Memcpy}
+             "Memcpy": Op.Memcpy, "Sigmoid": Op.Sigmoid, "Tanh": Op.Tanh, "Quantize": Op.Quantize}
     defs = "\n".join(f"def {_camel(n)} : List Nat := {lit(v)}" for n, v in sets.items())
     flagdefs = "\n".join(f"def flag{n} : Nat := {v}" for n, v in flags)
     nameddefs = "\n".join(f"def op{n} : Nat := {idx[o]}" for n, o in named.items())
